@@ -20,6 +20,7 @@ import OapiVerif.Model.UuidParse
 import OapiVerif.Model.SchemaOrder
 import OapiVerif.Model.Comment
 import OapiVerif.Model.RefPath
+import OapiVerif.Model.Form
 /-!
 Line-protocol driver: one JSON object per line in, one per line out.
 `{"fn": <name>, ...}` ↦ `{"ok": <result>}` or `{"err": "bad-op"}` (never a default).
@@ -388,6 +389,48 @@ def refPathD (j : Json) : Except String Json := do
     | .error .unsupported => Json.mkObj [("error", "unsupported")]
     | .error .unmapped => Json.mkObj [("error", "unmapped")])
 
+/-- flat form bodies: fields [{"name": hex, "ty": "str"|"bool"|"int8"…, "optional": bool}], values [null | hex string | integer
+(as a decimal string) | bool]; `op` = "marshal" (pairs) or "bind" (pairs given as [[hex, hex]]). -/
+def formD (j : Json) : Except String Json := do
+  let fsJ ← (← j.getObjVal? "fields").getArr?
+  let fs ← fsJ.toList.mapM fun f => do
+    let n ← unhexStr (← f.getObjValAs? String "name")
+    let ty ← match ← f.getObjValAs? String "ty" with
+      | "str" => pure Form.Sc.str | "bool" => pure Form.Sc.bool
+      | "int8" => pure (Form.Sc.int 8) | "int16" => pure (Form.Sc.int 16) | "int32" => pure (Form.Sc.int 32) | "int64" => pure (Form.Sc.int 64)
+      | _ => throw "bad-form-type"
+    pure (Form.Field.mk n ty (← f.getObjValAs? Bool "optional"))
+  let showV : Option Form.SVal → Json
+    | none => Json.null
+    | some (.str s) => Json.mkObj [("s", hexStr s)]
+    | some (.int v) => Json.mkObj [("i", Json.str (toString v))]
+    | some (.bool b) => Json.mkObj [("b", Json.bool b)]
+  match ← j.getObjValAs? String "op" with
+  | "marshal" =>
+    let vsJ ← (← j.getObjVal? "values").getArr?
+    let vs ← vsJ.toList.mapM fun v => do
+      match v with
+      | .null => pure (none : Option Form.SVal)
+      | .bool b => pure (some (Form.SVal.bool b))
+      | _ =>
+        match v.getObjValAs? String "s", v.getObjValAs? Bool "b" with
+        | .ok h, _ => pure (some (Form.SVal.str (← unhexStr h)))
+        | _, .ok b => pure (some (Form.SVal.bool b))
+        | _, _ =>
+          let i ← v.getObjValAs? String "i"
+          match i.toInt? with
+          | some n => pure (some (Form.SVal.int n))
+          | none => throw "bad-int"
+    pure (Json.mkObj [("pairs", Json.arr ((Form.marshal fs vs).map fun kv => Json.arr #[hexStr kv.1, hexStr kv.2]).toArray),
+      ("welltyped", Json.bool (Form.wellTyped fs vs))])
+  | "bind" =>
+    let ps ← j.getObjValAs? (Array (Array String)) "pairs"
+    let form ← ps.toList.mapM fun r => do pure ((← unhexStr r[0]!), (← unhexStr r[1]!))
+    pure (match Form.bind form fs with
+      | none => Json.mkObj [("error", "rejected")]
+      | some vs => Json.mkObj [("values", Json.arr (vs.map showV).toArray)])
+  | _ => throw "bad-form-op"
+
 /-- `SortedSchemaKeys`: entries as {"k": [bytes…], "o": integer or null}; result = the keys in order. -/
 def schemaKeysD (j : Json) : Except String Json := do
   let es ← (← j.getObjVal? "entries").getArr?
@@ -596,6 +639,7 @@ def dispatch (fn : String) (j : Json) : Except String Json :=
   | "schemaKeys" => schemaKeysD j
   | "comment" => commentD j
   | "refPath" => refPathD j
+  | "form" => formD j
   | "parseInt" => parseIntD j
   | "parseDate" => parseDateD j
   | "parseUuid" => parseUuidD j
